@@ -140,6 +140,7 @@ func TestXORRoundTrip(t *testing.T) {
 				bw.Reset(&buf)
 				enc.Reset()
 			}
+			damagedBefore := false
 			n := genLen(t, fmt.Sprintf("n%d", round))
 			if n > 120 {
 				n = 120
@@ -165,6 +166,28 @@ func TestXORRoundTrip(t *testing.T) {
 			}
 			data := append([]byte(nil), buf.Bytes()...)
 
+			// a damaged stream first (truncated inside a value / a window record, flipped, junk): the decoder
+			// reports an error or stops early, is Reset and must then read the intact stream exactly
+			if rapid.IntRange(0, 2).Draw(t, fmt.Sprintf("damagedFirst%d", round)) == 0 {
+				bad, kind := damageBytes(t, fmt.Sprintf("dmg%d", round), data, 0)
+				rb.SetBuf(bad)
+				br.Reset()
+				dec.Reset()
+				got := 0
+				noPanic(t, fmt.Sprintf("round %d, damaged stream (%s, %d of %d bytes)", round, kind, len(bad), len(data)), func() {
+					for i := 0; i < pre; i++ {
+						_, _ = br.ReadBit()
+					}
+					for ; got < n+2 && dec.Next(); got++ {
+						_ = dec.Value()
+					}
+				})
+				classes = append(classes, "damaged-stream-before", "damaged="+kind)
+				if got < n {
+					classes = append(classes, "damaged-stream-stopped-early")
+				}
+				damagedBefore = true
+			}
 			// production decoder (reused)
 			rb.SetBuf(data)
 			br.Reset()
@@ -196,7 +219,7 @@ func TestXORRoundTrip(t *testing.T) {
 				}
 			}
 			wc := xorWindowChanges(vals)
-			if n >= 2 && (wc > 0 || round > 0) {
+			if n >= 2 && (wc > 0 || round > 0 || damagedBefore) {
 				nt = true
 			}
 			if n > maxLen {
